@@ -446,7 +446,7 @@ static void rays_for(const GCfg &cfg, int per, int field, bool thorough, long se
   for (double x : L[0])
     for (double y : L[1])
       for (double z : L[2]) {
-        if (R.out_of_time() || failures > 20)
+        if (R.out_of_time())
           return;
         for (auto &dv : dirs) {
           RayCase rc;
